@@ -173,10 +173,13 @@ Definition do_op (cfgs : list ncfg) (i : nat) (started : bool) (opi : Z) (o : op
   | ORaw d => schedule_node i (now + d) g
   | OThrow => set_err 2 g
   | OMakePassive sl =>
-      if is_list_entry c sl then g   (* the harness leaves the activity of list slots alone *)
+      (* a list slot is (un)subscribed as a whole: the op names its FIRST entry, both entries change *)
+      if is_list_entry c sl
+      then upd_node i (set_act (set_nth (S (Z.to_nat sl)) false (set_nth (Z.to_nat sl) false (n_act (node_at i g))))) g
       else upd_node i (set_act (set_nth (Z.to_nat sl) false (n_act (node_at i g)))) g
   | OMakeActive sl =>
-      if is_list_entry c sl then g
+      if is_list_entry c sl
+      then upd_node i (set_act (set_nth (S (Z.to_nat sl)) true (set_nth (Z.to_nat sl) true (n_act (node_at i g))))) g
       else upd_node i (set_act (set_nth (Z.to_nat sl) true (n_act (node_at i g)))) g
   | OInvalidate =>
       (* ts_data/base_view.cpp TSDataMutationView::invalidate: nothing without a current value; otherwise
